@@ -73,7 +73,7 @@ func (h *HttpServer) handleUploadURLInit(w http.ResponseWriter, r *http.Request)
 		return
 	}
 
-	req, err := ReadRequest(bytes.NewReader(body))
+	req, err := readRequestBytes(body)
 	if err != nil {
 		h.writeHttpError(w, http.StatusBadRequest, err, UploadURLResponseSchema)
 		return
